@@ -182,6 +182,13 @@ class AsyncIOClient(ABC):
                         return
                     
                     await self._connect_impl()            
+                    if self._state == State.CLOSED:
+                        # close() was called while the connection was being established: CLOSED is final,
+                        # shut the link that has just been opened and stop.
+                        self.logger.info("Object terminated while connecting. Closing the new connection.")
+                        if self.writer:
+                            self.writer.close()
+                        return
                     await self._update_state(State.CONNECTED)
                     self.logger.info("Connected to the gateway.")
     
